@@ -107,6 +107,13 @@ def replay_refutation(REG, c, oname, model, pid, known, strict=False):
         except Exception as ex:
             res = dict(status='error', failed=[], detail=f'{ex!r}')
         if res['status'] == 'violated':
+            # an `ensures`/`raises` obligation is replayed by the same clause failing natively;
+            # call-site (pre) and frame obligations by any clause of the function failing
+            cl = clause.replace('strict::', '')
+            if cl.startswith(('ensures[', 'raises[', 'returns-', 'no-unexpected')) \
+                    and not any(f == cl or (cl.startswith('returns-') and f.startswith('no-unexpected'))
+                                for f in res['failed']):
+                continue
             fails.append((desc, res))
     return fails, tried
 
@@ -115,12 +122,16 @@ def run_property(pid, tier='quick', seed=0, jobs=16, verbose=False):
     t0 = time.time()
     os.environ['VERIF_TIER'] = tier
     REG, idx = load_contracts()
-    keys = [k for k, c in REG.contracts.items() if pid in c.props and not c.assumed]
+    allkeys = [k for k, c in REG.contracts.items() if pid in c.props and not c.assumed]
+    keys = [k for k in allkeys if tier == 'thorough' or REG.contracts[k].tier != 'thorough']
+    skipped_tier = [k for k in allkeys if k not in keys]
     assumed = sorted(k for k, c in REG.contracts.items() if c.assumed)
     if not keys:
         print(f'checker error: no contracts registered for {pid}')
         return 3
+    # longest first
     tasks = [(k, False) for k in keys] + [(k, True) for k in keys if REG.contracts[k].domain]
+    tasks.sort(key=lambda t: -REG.contracts[t[0]].options.get('weight', 1))
     jobs = min(jobs, len(tasks))
     if jobs > 1:
         ctx = mp.get_context('fork')
@@ -254,6 +265,9 @@ def run_property(pid, tier='quick', seed=0, jobs=16, verbose=False):
         extra_checks=[dict(name=e['name'], verdict=e['verdict'], kind=e.get('kind', ''),
                            detail=str(e.get('detail', ''))[:300]) for e in extra],
         glue_assumed=getattr(idx, 'GLUE', {}).get(pid, []),
+        not_run_in_this_tier=skipped_tier,
+        assumed_contracts_all=[k for k in assumed if pid in REG.contracts[k].props],
+        trusted_clauses=sorted(f'{k}: {n}' for k in keys for n in REG.contracts[k].trusted_ensures),
         known_findings=[k['what'] for k in known],
         undecided=undecided[:20], errors=errors[:10],
     )
